@@ -423,7 +423,18 @@ fn scen_c08(s: &mut Session, n: u64) {
             match s.rng.below(12) {
                 0..=4 => {
                     let u = *s.rng.pick(&UNITS6);
-                    let cnt = s.gen_count();
+                    let mut cnt = s.gen_count();
+                    if s.rng.chance(1, 3) {
+                        // a count that lands on (or next to) midnight, the wrap-around boundary
+                        if let Val::Time(t) = s.get("T") {
+                            let nod = t.as_nanos() as i128 % NPD;
+                            let dist = if add { NPD - nod } else { nod };
+                            let n = dist / unit_ns(u) + s.rng.range_i64(-1, 1) as i128;
+                            if n >= 0 && n <= u32::MAX as i128 {
+                                cnt = n as u32;
+                            }
+                        }
+                    }
                     s.step(if add { "time_add" } else { "time_sub" }, "T", "T", Some("T"), json!({"u": u, "n": wide(cnt)}));
                 }
                 5 | 6 => {
